@@ -43,43 +43,47 @@ V == Len(E.lrands)                    \* log2 n when there is a Lagrange kernel 
 Cur(c) == E.cur[c]
 Nxt(c) == E.nxt[c]
 
-\* ---- the composition of the constraints on the out-of-domain frame ------------------------------------------------
-PeriodicAt(k) == LET vals == E.periodic[k]  cyc == Len(vals)  gc == PowM(E.g, E.n \div cyc)
-                 IN  LagrangeAt([j \in 1..cyc |-> PowM(gc, j - 1)], vals, PowM(Z, E.n \div cyc))
-Constraint(i) ==
-    IF E.mode = "copy" THEN SubM(Nxt(i), Cur(i))
-    ELSE IF \E k \in DOMAIN E.neg : E.neg[k] = i - 1 THEN SubM(Nxt(i), SubM(i, Cur(i)))
-    ELSE LET p == IF E.pcol[i] >= 0 THEN PeriodicAt(E.pcol[i] + 1) ELSE 1
-         IN  SubM(Nxt(i), AddM(AddM(MulM(PowM(Cur(i), E.degs[i]), p), Cur((i % W) + 1)), i))
+\* ---- the composition of the constraints at a point pt, on the frame (cur, nxt) and the Lagrange column values lagv ----------
+\* (the out-of-domain stage instantiates it with the frame the proof sends, the prover stage with the trace polynomials)
+PeriodicAtP(k, pt) == LET vals == E.periodic[k]  cyc == Len(vals)  gc == PowM(E.g, E.n \div cyc)
+                      IN  LagrangeAt([j \in 1..cyc |-> PowM(gc, j - 1)], vals, PowM(pt, E.n \div cyc))
+ConstraintP(i, pt, cur, nxt) ==
+    IF E.mode = "copy" THEN SubM(nxt[i], cur[i])
+    ELSE IF \E k \in DOMAIN E.neg : E.neg[k] = i - 1 THEN SubM(nxt[i], SubM(i, cur[i]))
+    ELSE LET p == IF E.pcol[i] >= 0 THEN PeriodicAtP(E.pcol[i] + 1, pt) ELSE 1
+         IN  SubM(nxt[i], AddM(AddM(MulM(PowM(cur[i], E.degs[i]), p), cur[(i % W) + 1]), i))
 RandOf(j) == IF Len(E.rands) = 0 THEN 1 ELSE E.rands[((j - 1) % Len(E.rands)) + 1]
-AuxConstraint(j) ==
-    LET m == Cur(((j - 1) % W) + 1)  r == RandOf(j)  cur == Cur(W + j)  nxt == Nxt(W + j)
-    IN  IF E.aux_degs[j] = 1 THEN SubM(nxt, AddM(cur, MulM(r, m))) ELSE SubM(nxt, MulM(cur, PowM(AddM(m, r), E.aux_degs[j] - 1)))
-ZT == DivM(SubM(PowM(Z, E.n), 1), ProdM((E.n - E.exempt)..(E.n - 1), LAMBDA s : SubM(Z, PowM(E.g, s))))
+\* next value of auxiliary column j from its current value and the main value m (the functional reading of its constraint)
+AuxStep(j, cur, m) == LET r == RandOf(j)
+                      IN  IF E.aux_degs[j] = 1 THEN AddM(cur, MulM(r, m)) ELSE MulM(cur, PowM(AddM(m, r), E.aux_degs[j] - 1))
+AuxConstraintP(j, cur, nxt) == SubM(nxt[W + j], AuxStep(j, cur[W + j], cur[((j - 1) % W) + 1]))
+ZTAt(pt) == DivM(SubM(PowM(pt, E.n), 1), ProdM((E.n - E.exempt)..(E.n - 1), LAMBDA s : SubM(pt, PowM(E.g, s))))
 
 StepsOfA(a) == [j \in 1..a.steps |-> a.first + a.stride * (j - 1)]
 Key(a) == <<a.stride, a.first, a.col>>
 LessKey(p, q) == \/ p[1] < q[1] \/ (p[1] = q[1] /\ p[2] < q[2]) \/ (p[1] = q[1] /\ p[2] = q[2] /\ p[3] < q[3])
 RankIn(as, k) == Cardinality({m \in DOMAIN as : LessKey(Key(as[m]), Key(as[k]))}) + 1
-BoundaryTerm(a, off, cc) ==
+BoundaryTermP(a, off, cc, pt, cur) ==
     LET st == StepsOfA(a)
         xs == [j \in DOMAIN st |-> PowM(E.g, st[j])]
         ys == [j \in DOMAIN st |-> IF Len(a.values) = 1 THEN a.values[1] ELSE a.values[j]]
-        Va == LagrangeAt(xs, ys, Z)
-        Za == ProdM(DOMAIN xs, LAMBDA j : SubM(Z, xs[j]))
-    IN  MulM(cc, DivM(SubM(Cur(off + a.col + 1), Va), Za))
+        Va == LagrangeAt(xs, ys, pt)
+        Za == ProdM(DOMAIN xs, LAMBDA j : SubM(pt, xs[j]))
+    IN  MulM(cc, DivM(SubM(cur[off + a.col + 1], Va), Za))
 NMainA == Len(E.asserts)
-LagrangeTerms ==
+LagrangeTermsP(pt, lagv) ==
     LET r == E.lrands
     IN  AddM(SumM(1..V, LAMBDA k : MulM(E.lct[k],
-                     DivM(SubM(MulM(r[V - k + 1], E.lag[1]), MulM(SubM(1, r[V - k + 1]), E.lag[(V - k) + 2])),
-                          SubM(PowM(Z, 2 ^ (k - 1)), 1)))),
-             MulM(E.lcb, DivM(SubM(E.lag[1], ProdM(1..V, LAMBDA i : SubM(1, r[i]))), SubM(Z, 1))))
-HDef == AddM(AddM(DivM(AddM(SumM(1..W, LAMBDA i : MulM(E.cct[i], Constraint(i))),
-                            SumM(1..NAux, LAMBDA j : MulM(E.cct[W + j], AuxConstraint(j)))), ZT),
-                  AddM(SumM(DOMAIN E.asserts, LAMBDA k : BoundaryTerm(E.asserts[k], 0, E.ccb[RankIn(E.asserts, k)])),
-                       SumM(DOMAIN E.aux_asserts, LAMBDA k : BoundaryTerm(E.aux_asserts[k], W, E.ccb[NMainA + RankIn(E.aux_asserts, k)])))),
-             IF E.lagrange THEN LagrangeTerms ELSE 0)
+                     DivM(SubM(MulM(r[V - k + 1], lagv[1]), MulM(SubM(1, r[V - k + 1]), lagv[(V - k) + 2])),
+                          SubM(PowM(pt, 2 ^ (k - 1)), 1)))),
+             MulM(E.lcb, DivM(SubM(lagv[1], ProdM(1..V, LAMBDA i : SubM(1, r[i]))), SubM(pt, 1))))
+HDefAt(pt, cur, nxt, lagv) ==
+        AddM(AddM(DivM(AddM(SumM(1..W, LAMBDA i : MulM(E.cct[i], ConstraintP(i, pt, cur, nxt))),
+                            SumM(1..NAux, LAMBDA j : MulM(E.cct[W + j], AuxConstraintP(j, cur, nxt)))), ZTAt(pt)),
+                  AddM(SumM(DOMAIN E.asserts, LAMBDA k : BoundaryTermP(E.asserts[k], 0, E.ccb[RankIn(E.asserts, k)], pt, cur)),
+                       SumM(DOMAIN E.aux_asserts, LAMBDA k : BoundaryTermP(E.aux_asserts[k], W, E.ccb[NMainA + RankIn(E.aux_asserts, k)], pt, cur)))),
+             IF E.lagrange THEN LagrangeTermsP(pt, lagv) ELSE 0)
+HDef == HDefAt(Z, E.cur, E.nxt, E.lag)
 HSent == SumM(DOMAIN E.hz, LAMBDA j : MulM(PowM(Z, (j - 1) * E.n), E.hz[j]))
 ShapeOK == /\ Len(E.hz) = E.ccols /\ Len(E.cur) = NCols /\ Len(E.nxt) = NCols
            /\ Len(E.alphas) = E.layers /\ Len(E.fri) = E.layers /\ (E.lagrange => Len(E.lag) = V + 1)
@@ -128,6 +132,42 @@ FriEnd == LET st0 == [pos |-> E.positions, vals |-> [k \in DOMAIN E.positions |-
                    THEN (IF E.layers = 0 THEN "deep" ELSE "remainder")
               ELSE "accept"
 
+\* ---- PROVER: the proof is the proof of the trace the prover was given -----------------------------------------------------
+\* The event of an honest run carries the main columns the prover received (tcols).  The auxiliary columns follow from them and the
+\* recorded random elements by the functional reading of the auxiliary constraints, the Lagrange kernel column from its definition.
+\* Each column is interpolated over the trace domain from the definition of the inverse transform (coefficient k =
+\* 1/n sum_j T[j] g^(-jk)); then
+\*   prover-ood    the out-of-domain frame the proof sends = the trace polynomials at z, g z (Lagrange column: z, g z, g^2 z, g^4 z, ..)
+\*   prover-lde    every opened row of both trace segments = the trace polynomials at the queried point offset * w^p
+\*   prover-comp   at every queried point x: sum_j x^((j-1) n) H_j(x), H_j(x) being the opened composition columns, = the composition
+\*                 of all constraints evaluated on the trace polynomials at x and g x (the same HDefAt as the out-of-domain stage)
+HasTrace == "tcols" \in DOMAIN E /\ Len(E.tcols) = W
+LagPtsAt(pt) == [i \in 1..(V + 1) |-> IF i = 1 THEN pt ELSE MulM(pt, PowM(E.g, 2 ^ (i - 2)))]
+ProverStage ==
+    LET n    == E.n
+        idx  == [j \in 1..n |-> j]
+        ninv == InvM(n)
+        tab  == TLCEval(LET gi == InvM(E.g) IN [i \in 1..n |-> PowM(gi, i - 1)])
+        Interp(col) == TLCEval([k \in 1..n |-> MulM(ninv, FoldLeft(LAMBDA acc, j : (acc + col[j] * tab[(((j - 1) * (k - 1)) % n) + 1]) % P, 0, idx))])
+        main == E.tcols
+        AuxCol(j) == FoldLeft(LAMBDA acc, i : Append(acc, AuxStep(j, acc[i], main[((j - 1) % W) + 1][i])),
+                              <<IF E.aux_degs[j] = 1 THEN 0 ELSE 1>>, [i \in 1..(n - 1) |-> i])
+        Bit(row, b) == (row \div (2 ^ b)) % 2
+        LagCol == [row \in 1..n |-> ProdM(1..V, LAMBDA b : IF Bit(row - 1, b - 1) = 1 THEN E.lrands[b] ELSE SubM(1, E.lrands[b]))]
+        cols == main \o [j \in 1..NAux |-> AuxCol(j)] \o (IF E.lagrange THEN <<LagCol>> ELSE <<>>)
+        rc   == TLCEval([c \in DOMAIN cols |-> Reverse(Interp(cols[c]))])
+        At(c, x) == EvalR(rc[c], x)
+        FrameAt(x) == [c \in 1..NCols |-> At(c, x)]
+        LagAt(x) == IF E.lagrange THEN LET pts == LagPtsAt(x) IN [i \in 1..(V + 1) |-> At(NCols + 1, pts[i])] ELSE <<>>
+        OodP  == /\ \A c \in 1..NCols : E.cur[c] = At(c, Z) /\ E.nxt[c] = At(c, GZ)
+                 /\ E.lagrange => E.lag = LagAt(Z)
+        LdeP  == \A k \in DOMAIN E.positions : \A c \in DOMAIN cols : Row(k)[c] = At(c, X(k))
+        CompP == \A k \in DOMAIN E.positions :
+                    LET x == X(k)
+                    IN  SumM(DOMAIN E.comp_rows[k], LAMBDA j : MulM(PowM(x, (j - 1) * n), E.comp_rows[k][j]))
+                          = HDefAt(x, FrameAt(x), FrameAt(MulM(E.g, x)), LagAt(x))
+    IN  IF ~OodP THEN "prover-ood" ELSE IF ~LdeP THEN "prover-lde" ELSE IF ~CompP THEN "prover-comp" ELSE "ok"
+
 \* a point of the protocol at which division by zero would occur (possible only because the field is tiny): not judged
 Degenerate == \/ Z = 0 \/ PowM(Z, E.lde) = 1 \/ PowM(DivM(Z, E.offset), E.lde) = 1 \/ PowM(DivM(GZ, E.offset), E.lde) = 1
               \/ (E.lagrange /\ \E i \in 1..(V + 1) : PowM(DivM(LagPts[i], E.offset), E.lde) = 1)
@@ -137,7 +177,10 @@ CommitOK == /\ Len(E.trees) = (IF Len(E.aux_rows) > 0 THEN 3 ELSE 2) + E.layers
             /\ \A i \in DOMAIN E.trees : TreeOK(E.merges, E.trees[i])
 Algebra == IF ~ShapeOK THEN "shape" ELSE IF ~CoeffsOK THEN "coefficients" ELSE IF Degenerate THEN "degenerate"
            ELSE IF ~OodOK THEN "ood" ELSE IF ~DeepCoeffsOK THEN "coefficients" ELSE FriEnd
-ModelStage == IF Algebra = "accept" /\ ~CommitOK THEN "commitment" ELSE Algebra
+\* the prover stage is judged on honest runs that the verifier's stages accept
+ModelStage == IF Algebra = "accept" /\ ~CommitOK THEN "commitment"
+              ELSE IF Algebra = "accept" /\ HasTrace /\ ~E.cheat /\ ProverStage # "ok" THEN ProverStage
+              ELSE Algebra
 
 Proof == /\ E.ev = "proof"
          /\ LET ms == ModelStage
